@@ -47,6 +47,13 @@ def cases(tier, seed):
       out.append({'est': name, 'hseed': int(r.randint(2**31 - 1)),
                   'length': int(r.randint(6, 15)),
                   'prep': bool(h % 3 == 2), 'variant': h})
+  return _with_repotests(out, tier)
+
+
+def _with_repotests(out, tier):
+  if tier != 'quick':
+    from .. import repotests
+    out.extend(repotests.specs())
   return out
 
 
@@ -110,6 +117,9 @@ def _compare(j, mon, est, twin, Q, det):
 
 
 def run_case(spec, j):
+  if spec.get('kind') == 'repotests':
+    from .. import repotests
+    return repotests.run(spec, j)
   name = spec['est']
   rng = rng_for('c17run', spec['hseed'])
   kind = E.KIND[name]
